@@ -15,7 +15,7 @@ interior nodes), silently.  MultipleShooting/DirectCollocation return exactly t_
 A fix is to solve the (banded) collocation system  B(greville)^T c = f(greville)  instead of c = f(greville).
 """
 import sys
-sys.path.insert(0, '/tmp/nx_pydeps')
+sys.path.insert(0, '/verif/pydeps')
 import numpy as np, casadi as ca
 from rockit import Ocp, SplineMethod, MultipleShooting
 
